@@ -148,25 +148,45 @@ class Shim:
 
     def map_set_offset(self, m, off, prelude=True):
         """install a displacement field.  In half of the calls (decided by a hash of the field, so a case stays a pure
-        function of its JSON) ANOTHER field is installed first: 'near' (the same field perturbed by 1e-5..3e-3 cells) or
-        'far' (unrelated).  A map must depend on the current field only; source-map entries that are cached, thresholded or
-        only partly rewritten show up this way in every check that uses kick maps (round-4 seeds C05d, C08d)."""
+        function of its JSON) a HISTORY of one to three other fields is installed first, each of a kind drawn from:
+        'near' (the final field perturbed by 1e-5..3e-3 cells), 'far' (unrelated), 'same' (bit-identical to the final
+        field), 'outside' (some rows pushed beyond the mesh: +-n, +-inf, NaN; the other rows as in the final field),
+        'block0' (only the first n entries: a one-block field as used for kicks shared by all bunches), 'empty' (the idiom
+        'swap the field out, edit it, swap it back').  A map must depend on the current field only; source-map entries
+        that are cached, thresholded, only partly rewritten or guarded by sticky state show up this way in every check
+        that uses kick maps (seeds C05d, C08d, C15d, C01e, C08e)."""
         off = np.ascontiguousarray(off, np.float32)
         if prelude and len(off) and not os.environ.get("VERIF_NO_OFFSET_PRELUDE"):
             import zlib
             hsh = zlib.crc32(off.tobytes())
-            kind = hsh % 4
-            if kind >= 2:
+            if hsh % 2:
                 r = np.random.Generator(np.random.PCG64(hsh))
-                if kind == 2:
-                    pre = off + (r.uniform(-1, 1, len(off)) * 10 ** r.uniform(-5, -2.5)).astype(np.float32)
-                else:
-                    fin = off[np.isfinite(off)]
-                    amp = float(np.abs(fin).max()) if len(fin) else 1.0
-                    pre = (r.uniform(-1, 1, len(off)) * (amp + 0.5)).astype(np.float32)
-                pre = np.ascontiguousarray(pre, np.float32)
-                self._ck(self.lib.iv_map_set_offset(m, pre, len(pre)), "set_offset(prelude)")
-        off = np.ascontiguousarray(off, np.float32)
+                fin = off[np.isfinite(off)]
+                amp = float(np.abs(fin).max()) if len(fin) else 1.0
+                n1 = max(1, len(off) // max(1, int(self.lib.iv_nb())))
+                for _ in range(int(r.integers(1, 4))):
+                    kind = ("near", "far", "same", "outside", "block0", "empty")[int(r.integers(0, 6))]
+                    if kind == "near":
+                        pre = off + (r.uniform(-1, 1, len(off)) * 10 ** r.uniform(-5, -2.5)).astype(np.float32)
+                    elif kind == "far":
+                        pre = (r.uniform(-1, 1, len(off)) * (amp + 0.5)).astype(np.float32)
+                    elif kind == "same":
+                        pre = off.copy()
+                    elif kind == "outside":
+                        pre = off.copy()
+                        rows = r.random(len(off)) < 0.3
+                        vals = np.array([2.0 * n1, -2.0 * n1, np.inf, -np.inf, np.nan, 0.75 * n1, -0.75 * n1], np.float32)
+                        pre[rows] = vals[r.integers(0, len(vals), int(rows.sum()))]
+                    elif kind == "block0":
+                        pre = off[:n1].copy()
+                    else:
+                        pre = np.zeros(0, np.float32)
+                    pre = np.ascontiguousarray(pre, np.float32)
+                    if len(pre) == 0:
+                        pre = np.zeros(1, np.float32)      # ctypes needs a valid pointer; the length passed is 0
+                        self._ck(self.lib.iv_map_set_offset(m, pre, 0), "set_offset(prelude)")
+                    else:
+                        self._ck(self.lib.iv_map_set_offset(m, pre, len(pre)), "set_offset(prelude)")
         self._ck(self.lib.iv_map_set_offset(m, off, len(off)), "set_offset")
 
     def map_ramp_offset(self, m, start, end, K):
